@@ -292,7 +292,7 @@ def parse_bitstruct(it, d, reader, node):
         shift -= w
         if s.kind == 'Padding':
             continue
-        piece = (val / (1 << shift)) % (1 << w) if direct is None else (f.v / (1 << (direct + shift))) % (1 << w)
+        piece = (val / (1 << shift)) % (1 << w) if direct is None else f.field(direct + shift, w)
         if s.kind == 'Flag':
             fields[s.name] = mk_bool(piece != 0)
         else:
@@ -352,27 +352,36 @@ class BuiltFile:
     """the bytes of IntNul.build(v): byte i is (v div 256^i) mod 256; a little-endian field of n bytes at a concrete
     offset o is (v div 256^o) mod 256^n (exact, no byte recomposition needed)"""
 
-    def __init__(self, v, size):
+    def __init__(self, v, size, it=None):
         self.v = v
         self.N = z3.IntVal(size)
         self.F = None
+        self.it = it
+
+    def field(self, shift, width):
+        """(v div 2^shift) mod 2^width; linear when v is declared digit-wise (libops.divmod_const)"""
+        from .libops import divmod_const
+        if self.it is None:
+            return (self.v / (1 << shift)) % (1 << width)
+        q = divmod_const(self.it, self.v, 1 << shift)[0] if shift else self.v
+        return divmod_const(self.it, q, 1 << width)[1]
 
     def byte(self, i):
         i = z3.simplify(i) if not isinstance(i, int) else z3.IntVal(i)
         if not z3.is_int_value(i):
             raise Unsupported('symbolic offset into built bytes')
-        return (self.v / (1 << (8 * i.as_long()))) % 256
+        return self.field(8 * i.as_long(), 8)
 
     def le(self, off, n):
         off = z3.simplify(off) if not isinstance(off, int) else z3.IntVal(off)
         if not z3.is_int_value(off):
             raise Unsupported('symbolic offset into built bytes')
-        return (self.v / (1 << (8 * off.as_long()))) % (1 << (8 * n))
+        return self.field(8 * off.as_long(), 8 * n)
 
 
 def parse_built(it, d, data, node):
     """parse a declaration out of IntNul.build(v): the file is the little-endian bytes of v"""
-    r = Reader(BuiltFile(data.v, data.size), 0)
+    r = Reader(BuiltFile(data.v, data.size, it), 0)
     return parse(it, d, r, None, node)
 
 
